@@ -573,6 +573,13 @@ fn main() {
     let (found, input, observed) = match prop.as_str() {
         "C01" => c01(rep.filter(|v| v.len() == 3).map(|v| (v[0] as usize, v[1] as usize, v[2] as usize))),
         "C02" => c02(rep.filter(|v| v.len() == 5).map(|v| (v[0] as usize, v[1] as usize, v[2] as usize, v[3] as usize, v[4] as usize))),
+        // C03 (verdict == the unbatched relations): an honest proof satisfies the relations, a violated constraint falsifies
+        // them, so both grids are also refutations of C03; replay inputs are told apart by their length
+        "C03" => match rep.as_ref().map(|v| v.len()) {
+            Some(3) => c01(rep.map(|v| (v[0] as usize, v[1] as usize, v[2] as usize))),
+            Some(5) => c02(rep.map(|v| (v[0] as usize, v[1] as usize, v[2] as usize, v[3] as usize, v[4] as usize))),
+            _ => { let a = c01(None); if a.0 { a } else { let b = c02(None); if b.0 { b } else { (false, "null".into(), format!("{}; {}", a.2, b.2)) } } }
+        },
         "C05" => c05(rep.and_then(|v| v.first().map(|x| *x as usize))),
         "C07" => c07(),
         "C12" => c12(),
